@@ -20,6 +20,7 @@ import (
 
 	"github.com/Breeze0806/gobinlog/replication"
 	"verif/chk"
+	"verif/e2"
 	"verif/e3/rowdec"
 	"verif/ref"
 )
@@ -1013,6 +1014,12 @@ func enumB(seed int64, counts []int, thorough bool, f func(CaseB)) {
 var columnCounts = []int{1, 2, 3, 4, 7, 8, 9, 16, 17, 64, 250, 251, 300}
 
 func run(r *chk.Run) {
+	// end-to-end half first (engine E2): the streamer's own walk over the images
+	e2.RunImageWalk(r)
+	if r.Violated() {
+		r.SetExhaustive(false)
+		return
+	}
 	seed := r.Seed
 	filler(seed)
 	if why := rowdec.SelfTest(); why != "" {
@@ -1175,6 +1182,8 @@ func replay(kind string, input json.RawMessage) (bool, string) {
 	defer guard.Stop()
 	guard.Enter(0, kind)
 	switch kind {
+	case "history":
+		return e2.ReplayHistory(kind, input)
 	case "A":
 		var c CaseA
 		if err := json.Unmarshal(input, &c); err != nil {
